@@ -641,20 +641,21 @@ example : nodeEx ((createNodeFrom 3 0 0).step twoNodes).2.kv 3 = false := by dec
 
 /-- `quiescent_wf_partial` with the batch calls: any number of threads, each running any list of
     `create_node`, `create_edge`, `delete_edge`, `update_node`, `add_label`, `remove_label`,
-    `update_edge`, `batch_create_nodes`, `batch_create_edges` and `batch_delete_edges` operations from
-    any reachable store: for EVERY interleaving of their store calls that the list locks allow, once all
+    `update_edge`, `batch_create_nodes`, `batch_create_edges`, `batch_delete_edges` and
+    `batch_update_nodes` operations from any reachable store: for EVERY interleaving of their store calls that the list locks allow, once all
     threads have finished the store is well-formed.  A batch call is its sequence of store calls (the
     validation calls of all items first, one block of ids, then `create_edge_internal` /
     `create_node_internal` / `delete_edge` item by item), every adjacency-list append and removal in it
     under the lock of that list exactly as in the single operations — so the read-modify-write of a list
     inside a batch call is atomic w.r.t. every other writer of that list, single or batch, whichever
-    thread runs it.  `batch_create_edges` and `batch_create_nodes` take ANY items (endpoints that do not
-    exist, that another thread is creating right now, self-loops, undirected, empty input).
+    thread runs it.  `batch_create_edges`, `batch_create_nodes` and `batch_update_nodes` take ANY items
+    (endpoints that do not exist, that another thread is creating right now, self-loops, undirected,
+    nodes that do not exist, empty input).
     Conditions (`AdmissibleB`): ids named by `delete_edge` / `update_edge` / `batch_delete_edges` were
     handed out before the phase; no edge both updated and deleted.
     What is missing w.r.t. the full statement (false: the witnesses above): `delete_node` and
-    `batch_delete_nodes` (node deletion next to anything that touches the node), `batch_update_nodes`
-    (writes node records only; sequential theorems), `update_edge` next to a delete of the same edge. -/
+    `batch_delete_nodes` (node deletion next to anything that touches the node), `update_edge` next to a
+    delete of the same edge. -/
 theorem quiescent_wf_with_batch_calls_partial (s0 : St) (h : Inv s0) (programs : List (List Op))
     (hadm : ∀ ops ∈ programs, ∀ op ∈ ops, AdmissibleB s0 programs op) : QuiescentWF s0 programs :=
   quiescentWF_of_admissibleB s0 h programs hadm
@@ -673,7 +674,7 @@ example : QuiescentWF twoNodes [[bce12], [e12]] :=
 example : QuiescentWF twoNodesTwoEdges
     [[.batchCreateEdges [⟨1, 2, false, 0, 0⟩, ⟨2, 2, true, 1, 1⟩, ⟨1, 9, true, 0, 0⟩], .batchDeleteEdges [2, 2, 1]],
      [.deleteEdge 1, .batchCreateNodes [(0, 0), (1, 1)], .createEdge 3 1 true 0 0],
-     [.batchCreateEdges [⟨2, 1, true, 0, 1⟩], .updateNode 1 none 3]] :=
+     [.batchCreateEdges [⟨2, 1, true, 0, 1⟩], .batchUpdateNodes [(1, none, 3), (9, some 1, 1)]]] :=
   quiescent_wf_with_batch_calls_partial _ (wf_preserved _ _ inv_empty).1 _ (by
     intro ops hops op hop
     simp at hops
